@@ -72,7 +72,7 @@ inline void jevents(std::string& o, const std::vector<Event>& ev)
         first = false;
         o += '[';
         jstr(o, e.k);
-        if (e.k == "L") { o += ','; jstr(o, e.s); }
+        if (e.k == "L" || !e.s.empty()) { o += ','; jstr(o, e.s); }
         for (long v : e.a) { o += ','; o += std::to_string(v); }
         for (const auto& l : e.lst)
         {
